@@ -44,7 +44,8 @@ def gen(rng, tier):
                     rels = {"h2.stream0": ["credit", "settings_grow", "rst", "eof", "reset"],
                             "h2.conn0": ["credit", "eof", "reset", "rst"],
                             # (eof: the client finishes sending - half-close - while it still takes nothing: the connection is over)
-                            "h2.pause": ["resume", "reset", "goaway", "eof"]}[kind]
+                            # (ping_rst: a PING, which the server has to answer - into a transport that takes nothing - and only then the RST_STREAM)
+                            "h2.pause": ["resume", "reset", "goaway", "eof", "ping_rst"]}[kind]
                     for release in rels:
                         if release == "goaway" and point != "mid":
                             continue  # paused from the very first byte the server never gets past its own SETTINGS: nothing to observe
@@ -275,6 +276,8 @@ def _build(rng, n, kind, size, chunk, point, release, sib):
         client += [["resume"]]
     elif release == "goaway":
         client += [["feed", fb.goaway(last=sid, code=0)]]
+    elif release == "ping_rst":
+        client += [["feed", fb.ping(b"12345678")], ["settle"], ["react", "rst", sid]]
     client += [["settle"]]
     if sibs and kind == "h2.pause":
         pass
@@ -594,4 +597,4 @@ def check(case, obs, tally):
 
 def _rel_name(t):
     return {"eof": "client-eof", "rst": "rst-stream", "reset": "client-reset", "resume": "resume", "credit": "credit",
-            "settings_grow": "settings-growth", "protocol_error": "server-closes-on-protocol-error", "goaway": "client-goaway"}[t["release"]]
+            "settings_grow": "settings-growth", "protocol_error": "server-closes-on-protocol-error", "goaway": "client-goaway", "ping_rst": "paused-ping-then-rst-stream"}[t["release"]]
